@@ -272,10 +272,14 @@ CLAIMED = {
             'terms / bits / dtype after the call) on every explored path of '
             'the symbolic harnesses of C02, C04, C07, C11, C14, C16, C17, '
             'C19, where NaN flags, signs and mask bits are solver choices so '
-            'every clean-up branch is reached; (b) for 20 entry points that '
-            'cannot carry symbolic arrays (Background2D, star finders, PSF '
-            'photometry, Gaussian centroids, catalog, profiles, '
-            'calc_total_error, Ellipse, ...) every feasible combination of '
+            'every clean-up branch is reached; (b) for 31 entry points that '
+            'cannot carry symbolic arrays (Background2D and the nine '
+            'background estimators, LocalBackground, star finders, PSF '
+            'photometry, fit_fwhm, Gaussian centroids, catalog, '
+            'data_properties, profiles, ApertureMask methods, '
+            'SegmentationImage reads, cutouts, ImagePSF/GriddedPSFModel, '
+            'PSF matching, ePSF building, calc_total_error, '
+            'detect_threshold, Ellipse, ...) every feasible combination of '
             'container (ndarray / MaskedArray / Quantity / strided view), '
             'NaN present, negative pixels inside sources, mask none/bool/'
             'int8, error given, with every lazy public property read, is '
